@@ -22,11 +22,19 @@ type Ctx struct {
 	Rng   *Rng
 	Stats map[string]int
 	Args  []string
+
+	emitted int
 }
 
 func (c *Ctx) Emit(format string, a ...any) {
 	fmt.Fprintf(c.Out, format, a...)
 	c.Out.WriteByte('\n')
+	// flush often: if the implementation kills the process (panic in a goroutine) the lines written so far
+	// are what identifies the input that did it
+	c.emitted++
+	if c.emitted%16 == 0 {
+		c.Out.Flush()
+	}
 }
 func (c *Ctx) Count(k string) { c.Stats[k]++ }
 
